@@ -214,8 +214,9 @@ PROPS = {
                      "the oracle's grid (4096 points quick, 16384 thorough, each local minimum refined) finds the global minimum to well below 1e-9 m"],
     ),
     "C03": dict(
-        lean_modules=["AlphaG.Props.C03", "AlphaG.Lemmas.CrcOrbit", "AlphaG.Lemmas.Crc", "AlphaG.Model.Crc"],
+        lean_modules=["AlphaG.Props.C03", "AlphaG.Props.C03Injective", "AlphaG.Lemmas.CrcOrbit", "AlphaG.Lemmas.Crc", "AlphaG.Model.Crc"],
         required_theorems=["AlphaG.Chunk.chunk_accept_iff", "AlphaG.Chunk.chunk_fields", "AlphaG.Chunk.chunk_roundtrip",
+                           "AlphaG.Chunk.chunk_decode_injective", "AlphaG.Chunk.chunk_encode_accepted",
                            "AlphaG.Chunk.chunk_total", "AlphaG.Chunk.chunk_accessors_total",
                            "AlphaG.Chunk.chunk_header_crc32c", "AlphaG.Chunk.chunk_payload_crc32c",
                            "AlphaG.Chunk.detect_odd", "AlphaG.Chunk.detect_burst32", "AlphaG.Chunk.detect_two",
@@ -270,9 +271,9 @@ PROPS = {
         assumptions=["sort_unstable_by_key contract: sorted permutation", "ChunkV.Valid is established by Chunk::try_from (C03)"],
     ),
     "C05": dict(
-        lean_modules=["AlphaG.Props.C05"],
+        lean_modules=["AlphaG.Props.C05", "AlphaG.Props.C05Injective"],
         required_theorems=["AlphaG.Pwb." + t for t in [
-            "pwb_accept_iff", "pwb_fields", "pwb_channels_sent", "readout_bijective", "pwb_waveform", "pwb_roundtrip",
+            "pwb_decode_injective", "pwb_encode_accepted", "pwb_accept_iff", "pwb_fields", "pwb_channels_sent", "readout_bijective", "pwb_waveform", "pwb_roundtrip",
             "pwb_total", "waveformAt_total", "baseline_total"]],
         harness=[("c05", ["dev", "release"])],
         level_text="Lean theorems over all payloads: accept iff the documented little-endian layout (pwb_accept_iff), every "
